@@ -47,7 +47,7 @@ func TestGovcBoundedC06Groupings(t *testing.T) {
 		ex := &gxExpander{mods: g.mods}
 		ex.expandAll()
 		missing := ex.applyAugments()
-		for _, r := range ex.roots {
+		for _, r := range ex.rootList() {
 			r.fixChoices()
 		}
 		var srcs []string
